@@ -3,9 +3,9 @@ Model of `program_analysis/src/unconstrained_less_than.rs` (C11) above the thres
 an input of `LessThan` is taken to be checked by.  Statements are abstracted to what the pass looks at:
 
 * `inst key t`   — `var[access] = T(args)`: the component (name and access) and what it is instantiated as;
-* `input key port indexed whole elems` — `var[access].port <== value` or `var[access].port[i] <== value` (`indexed`): `whole` is
-  the canonical text of the assigned expression (the pass compares expressions, not locations), `elems` the texts of its elements
-  if it is an inline array `[v₀, v₁, …]`.
+* `input key port indexed whole elems block` — `var[access].port <== value` or `var[access].port[i] <== value` (`indexed`) in basic
+  block `block`: `whole` is the assigned expression — its canonical text (the pass compares expressions, not locations) and whether
+  it is *fixed*, i.e. reads no local variable —, `elems` its elements if it is an inline array `[v₀, v₁, …]`.
 
 Since the `fix:` ee9259e a component is looked up by `maybe_equal` (as in `SignalAssign.mayAlias`, but for accesses of equal
 length), and since its review all instantiations are kept: the inputs are examined when *some* instantiation that may be the
@@ -29,9 +29,12 @@ structure Key where
   acc : List Acc
   deriving Repr, DecidableEq
 
+/-- an expression: its canonical text, and whether it reads no local variable (then it has one value in the whole template) -/
+abbrev Val := String × Bool
+
 inductive Stmt
   | inst (key : Key) (t : Inst)
-  | input (key : Key) (port : String) (indexed : Bool) (whole : String) (elems : Option (List String))
+  | input (key : Key) (port : String) (indexed : Bool) (whole : Val) (elems : Option (List Val)) (block : Nat)
   | other
   deriving Repr, DecidableEq
 
@@ -62,33 +65,40 @@ def bitSize : List Inst → Option (Option Nat)
   | _ :: _ => none
 
 inductive Input
-  | lessThan (value : String)
-  | num2bits (value : String) (size : Option Nat)
+  | lessThan (value : Val) (block : Nat)
+  | num2bits (value : Val) (size : Option Nat) (block : Nat)
   deriving Repr, DecidableEq
 
 /-- `update_inputs` on one statement: the `Num2Bits` reading and the `LessThan` readings are independent of each other -/
 def inputsOf (cs : List (Key × Inst)) : Stmt → List Input
-  | .input k port indexed whole elems =>
+  | .input k port indexed whole elems b =>
     if port != "in" then []
     else
       let is := candidates cs k
       (match bitSize is with
-       | some size => if indexed then [] else [.num2bits whole size]
+       | some size => if indexed then [] else [.num2bits whole size b]
        | none => []) ++
       (if mayBeLessThan is then
-         (if indexed then [.lessThan whole]
-          else match elems with | some vs => vs.map .lessThan | none => [.lessThan whole])
+         (if indexed then [.lessThan whole b]
+          else match elems with | some vs => vs.map (fun v => .lessThan v b) | none => [.lessThan whole b])
        else [])
   | _ => []
 
 def inputs (ss : List Stmt) : List Input := ss.flatMap (inputsOf (components ss))
 
-/-- `find_unconstrained_less_than`: the values reported under curve `c` -/
+/-- a `LessThan` input `v` assigned in block `b` is covered: some `Num2Bits` of known, qualifying size has the same expression as
+    input — anywhere if the expression is fixed, in the same basic block if it reads a local variable (since the `fix:` 2b59069:
+    `x[i]` after a loop is another element than `x[i]` in its body) -/
+def covered (c : Curve.Curve) (ins : List Input) (v : Val) (b : Nat) : Bool :=
+  ins.any (fun i => match i with
+    | .num2bits w (some k) b2 => w.1 == v.1 && Curve.rangeChecked c k && (v.2 || b2 == b)
+    | _ => false)
+
+/-- `find_unconstrained_less_than`: the values reported under curve `c` (one report per expression) -/
 def reported (c : Curve.Curve) (ss : List Stmt) : List String :=
   let ins := inputs ss
-  let lts := (ins.filterMap (fun i => match i with | .lessThan v => some v | _ => none)).eraseDups
-  lts.filter (fun v => !(ins.any (fun i => match i with
-    | .num2bits w (some k) => w == v && Curve.rangeChecked c k
-    | _ => false)))
+  ((ins.filterMap (fun i => match i with
+    | .lessThan v b => if covered c ins v b then none else some v.1
+    | _ => none))).eraseDups
 
 end Circomspect.LessThanPass
